@@ -49,6 +49,9 @@ pub struct WorldSpec {
     /// packaging: create this many (empty) tick arrays on each side of the start price before any position exists
     #[serde(default)]
     pub precreate_arrays: u8,
+    /// adaptive-fee pool with these constants (must satisfy the published validity rules, else the pool is static)
+    #[serde(default)]
+    pub adaptive: Option<crate::world2::AfConstants>,
 }
 
 #[derive(Clone, Debug, Serialize, Deserialize, Hash, PartialEq, Eq)]
@@ -197,7 +200,19 @@ impl Hist {
         } else {
             (if spec.mint_kind == 1 { w.create_t22_mint(None) } else { w.create_spl_mint() }, if spec.mint_kind >= 1 { w.create_t22_mint(None) } else { w.create_spl_mint() })
         };
-        let pool = w.init_pool(cfg, &m1, &m2, spec.tick_spacing, start_sqrt_price(spec)).ok()?;
+        let pool = match &spec.adaptive {
+            Some(k) => {
+                let auth = w.new_signer();
+                let index = 1024u16.wrapping_add(spec.tick_spacing % 1000);
+                let ix = w.ix_init_adaptive_fee_tier(cfg, index, spec.tick_spacing, Pubkey::default(), Pubkey::default(), spec.fee_rate.min(60000), k);
+                if w.exec(&ix).ok() {
+                    w.init_pool_adaptive(cfg, &m1, &m2, index, spec.tick_spacing, auth, start_sqrt_price(spec), None).ok()?
+                } else {
+                    w.init_pool(cfg, &m1, &m2, spec.tick_spacing, start_sqrt_price(spec)).ok()?
+                }
+            }
+            None => w.init_pool(cfg, &m1, &m2, spec.tick_spacing, start_sqrt_price(spec)).ok()?,
+        };
         // poke p1: accumulators of a pool without positions may start anywhere
         {
             let k = w.pools[pool].key;
@@ -727,6 +742,7 @@ pub fn spec_strategy(with_rewards: bool, wrap_bias: bool) -> BoxedStrategy<World
             tf1: None,
             tf2: None,
             precreate_arrays: 0,
+            adaptive: None,
         })
         .boxed()
 }
@@ -853,7 +869,7 @@ pub fn swap_run_history_strategy() -> BoxedStrategy<HistoryCase> {
         1..=5,
     )
     .prop_map(|v| v.into_iter().flatten().collect::<Vec<Op>>());
-    (spec_strategy(false, false), prelude, swap_run_strategy())
+    (with_adaptive(spec_strategy(false, false), 5), prelude, swap_run_strategy())
         .prop_map(|(spec, mut pre, ops)| {
             pre.extend(ops);
             HistoryCase { spec, ops: pre }
@@ -870,10 +886,53 @@ pub fn history_strategy(with_rewards: bool, wrap_bias: bool, max_ops: usize) -> 
         2..=5,
     )
     .prop_map(|v| v.into_iter().flatten().collect::<Vec<Op>>());
-    (spec_strategy(with_rewards, wrap_bias), prelude, prop::collection::vec(op_strategy(with_rewards), 6..=max_ops))
+    (with_adaptive(spec_strategy(with_rewards, wrap_bias), 5), prelude, prop::collection::vec(op_strategy(with_rewards), 6..=max_ops))
         .prop_map(|(spec, mut pre, ops)| {
             pre.extend(ops);
             HistoryCase { spec, ops: pre }
         })
         .boxed()
+}
+
+/// Token-2022 transfer-fee schedule (basis points, maximum fee) for fee-mint pools
+pub fn tf_strategy() -> BoxedStrategy<Option<(u16, u64)>> {
+    prop_oneof![
+        1 => Just(None),
+        6 => (prop::sample::select(vec![0u16, 1, 100, 250, 5000, 9999, 10000]), prop_oneof![1 => Just(0u64), 2 => 1u64..5000, 2 => crate::gen::bits_u64(40), 1 => Just(u64::MAX)]).prop_map(Some),
+        2 => (0u16..=10000, crate::gen::bits_u64(64)).prop_map(Some),
+    ]
+    .boxed()
+}
+
+
+/// valid adaptive-fee constants for a tick spacing (all fields varied within the published rules)
+pub fn adaptive_constants(ts: u16) -> BoxedStrategy<crate::world2::AfConstants> {
+    let divisors: Vec<u16> = (1..=ts.min(256)).filter(|d| ts % d == 0).collect();
+    (1u16..=60, 1u16..=600, 0u16..10_000, prop_oneof![1 => Just(0u32), 6 => 1u32..100_000], any::<u32>(), prop::sample::select(divisors), 1u32..=65_535)
+        .prop_map(move |(filter_period, extra, reduction_factor, adaptive_fee_control_factor, macc, tick_group_size, major)| {
+            let cap = (u32::MAX as u64 / tick_group_size as u64).min(3_000_000) as u32;
+            crate::world2::AfConstants {
+                filter_period,
+                decay_period: filter_period + extra,
+                reduction_factor,
+                adaptive_fee_control_factor,
+                max_volatility_accumulator: macc % (cap + 1),
+                tick_group_size,
+                major_swap_threshold_ticks: (1 + major % ((ts as u32 * 88).min(65_535))) as u16,
+            }
+        })
+        .boxed()
+}
+
+/// turn a fraction of generated specs into adaptive-fee pools
+pub fn with_adaptive(spec: BoxedStrategy<WorldSpec>, one_in: u32) -> BoxedStrategy<WorldSpec> {
+    spec.prop_flat_map(move |s| {
+        let ts = s.tick_spacing;
+        (Just(s), prop_oneof![(one_in - 1) => Just(None), 1 => adaptive_constants(ts).prop_map(Some)])
+    })
+    .prop_map(|(mut s, k)| {
+        s.adaptive = k;
+        s
+    })
+    .boxed()
 }
